@@ -600,9 +600,25 @@ def run_batch(args):
                     # a dynamics disagreement on a loaded scenario is charged to the loader only when
                     # no step predicate is violated (then it belongs to C01..C08, decided by DYN)
                     pl = C.run_driver(lines + [suite_dyn.p_request(q, rec) for q, rec, _ in bad[:50]])
-                    verdicts = [all(v == 1 for v in C.parse_reply(l)) for l in pl]
+                    replies = [C.parse_reply(l) for l in pl]
+                    verdicts = [all(v == 1 for v in rp) for rp in replies]
                     # one violated step predicate anywhere explains every later drift of this exploration
                     unexplained = [] if not all(verdicts) else list(bad[:50])
+                    # "the environment built from it enforces every rule written in the file": a transition of the
+                    # environment built from this very file on which an exploit / scan goes through although the
+                    # file's service / OS / process names (C01) or its firewall rules (C02) forbid it is a failing
+                    # input of C17 as well (the step predicates are those of DYN)
+                    for (q, rec, got), rp in zip(bad[:50], replies):
+                        if len(rp) == len(suite_dyn.PRED_IDS) and all(isinstance(v, int) for v in rp):
+                            broken = [suite_dyn.PRED_IDS[i] for i, v in enumerate(rp) if v == 0]
+                            rules = [b for b in broken if b in ("C01", "C02")]
+                            if rules:
+                                res["findings"].append(dict(property="C17", kind="failing-input",
+                                    what="the environment built from a loaded file does not enforce a rule written in the "
+                                         f"file: step predicate(s) {rules} are false on one of its transitions",
+                                    replay=dict(kind="load-dyn-rule", document=doc, query=q, impl_output=rec[:300],
+                                                model_output=got[:300], false_predicates=broken)))
+                                break
                     for q, rec, got in unexplained[:3]:
                         res["findings"].append(dict(property="C17", kind="correspondence",
                             what="the environment built from a loaded file behaves differently from the model on the "
